@@ -51,6 +51,8 @@ type node struct {
 	// file blobs only: the bytes of the file when assembled
 	IsFile  bool
 	Content []byte
+
+	refS string // B.Ref.String(), cached
 }
 
 type universe struct {
@@ -69,6 +71,7 @@ func (u *universe) add(n *node) int {
 	if n.Links == nil {
 		n.Links = map[int]string{}
 	}
+	n.refS = n.B.Ref.String()
 	u.N = append(u.N, n)
 	i := len(u.N) - 1
 	u.byRef[n.B.Ref] = i
@@ -403,7 +406,7 @@ func (u *universe) ids(names []string) ([]int, error) {
 func (u *universe) url(chain []int, assemble bool, form string) string {
 	var sb strings.Builder
 	sb.WriteString("http://unused/")
-	sb.WriteString(u.N[chain[len(chain)-1]].B.Ref.String())
+	sb.WriteString(u.N[chain[len(chain)-1]].refS)
 	if form == "path-suffix" {
 		sb.WriteString("/some/file.txt")
 	}
@@ -417,7 +420,7 @@ func (u *universe) url(chain []int, assemble bool, form string) string {
 			if i > 0 {
 				sb.WriteString(",")
 			}
-			sb.WriteString(u.N[c].B.Ref.String())
+			sb.WriteString(u.N[c].refS)
 		}
 		if form == "trailing-comma" {
 			sb.WriteString(",")
@@ -481,11 +484,11 @@ func (u *universe) leaks(body []byte, allowed map[int]bool, inRequest map[int]bo
 		if len(n.B.Data) >= 8 && bytes.Contains(body, n.B.Data) {
 			return "bytes-of:" + n.Kind
 		}
-		if !inRequest[i] && bytes.Contains(body, []byte(n.B.Ref.String())) {
+		if !inRequest[i] && bytes.Contains(body, []byte(n.refS)) {
 			// a ref can legitimately occur inside the data of an allowed blob
 			ok := false
 			for a := range allowed {
-				if bytes.Contains(u.N[a].B.Data, []byte(n.B.Ref.String())) {
+				if bytes.Contains(u.N[a].B.Data, []byte(n.refS)) {
 					ok = true
 				}
 			}
@@ -677,15 +680,21 @@ type variant struct {
 
 var readVariants = []variant{{"GET", false}, {"HEAD", false}, {"GET", true}, {"HEAD", true}}
 
-func runShare(res *vk.Result, maxLen int) {
+func runShare(res *vk.Result, maxLenShare, maxLenOther int) {
 	u, err := buildUniverse()
 	if err != nil {
 		res.EngineError("share: building the universe: %v", err)
 		return
 	}
 	n := len(u.N)
+	nShares := 0
+	for _, x := range u.N {
+		if x.IsShare {
+			nShares++
+		}
+	}
 	sc := res.Scenario("share-chains")
-	sc.Bound = fmt.Sprintf("all chains of length 1..%d over a universe of %d blobs x {GET,HEAD} x assemble {off,on}", maxLen, n)
+	sc.Bound = fmt.Sprintf("all chains of length 1..%d that start at one of the %d share claims and all chains of length 1..%d that start at any of the other %d blobs, over a universe of %d blobs x {GET,HEAD} x assemble {off,on}", maxLenShare, nShares, maxLenOther, n-nShares, n)
 	scm := res.Scenario("share-other-methods")
 	scm.Bound = fmt.Sprintf("all chains of length 1..2 over %d blobs x {POST,PUT,DELETE,PATCH,OPTIONS} x assemble {off,on}", n)
 	scf := res.Scenario("share-request-forms")
@@ -727,14 +736,31 @@ func runShare(res *vk.Result, maxLen int) {
 	for _, m := range []string{"POST", "PUT", "DELETE", "PATCH", "OPTIONS"} {
 		other = append(other, variant{m, false}, variant{m, true})
 	}
-	for c0 := 0; c0 < n; c0++ {
+	// first hops in the order: share claims first (everything that can be served
+	// starts there), then the rest
+	var order []int
+	for i, x := range u.N {
+		if x.IsShare {
+			order = append(order, i)
+		}
+	}
+	for i, x := range u.N {
+		if !x.IsShare {
+			order = append(order, i)
+		}
+	}
+	for pos, c0 := range order {
+		maxLen := maxLenOther
+		if u.N[c0].IsShare {
+			maxLen = maxLenShare
+		}
 		for c1 := 0; c1 < n; c1++ {
-			if !vk.Mine(c0*n + c1) {
+			if !vk.Mine(pos*n + c1) {
 				continue
 			}
 			if time.Now().After(deadline) {
 				sc.Exhaustive = false
-				sc.Note = fmt.Sprintf("deadline reached at first-two-hops item %d of %d", c0*n+c1, n*n)
+				sc.Note = fmt.Sprintf("deadline reached at first-two-hops item %d of %d (share claims come first)", pos*n+c1, n*n)
 				return
 			}
 			if c1 == 0 {
